@@ -182,24 +182,16 @@ def peekIntoStream(substrate, size=-1):
     : :py:class:`bytes` or :py:class:`str`
         The return type depends on Python major version
     """
-    if hasattr(substrate, "peek"):
-        received = substrate.peek(size)
-        if received is None:
-            yield
+    # `substrate.peek()`, where there is one, may hand out fewer octets than
+    # asked for (or None): read and step back instead, waiting for data the
+    # same way readFromStream() does
+    current_position = substrate.tell()
+    try:
+        for chunk in readFromStream(substrate, size):
+            yield chunk
 
-        while len(received) < size:
-            yield
-
-        yield received
-
-    else:
-        current_position = substrate.tell()
-        try:
-            for chunk in readFromStream(substrate, size):
-                yield chunk
-
-        finally:
-            substrate.seek(current_position)
+    finally:
+        substrate.seek(current_position)
 
 
 def readFromStream(substrate, size=-1, context=None):
